@@ -1,7 +1,10 @@
 """C06 — responses are accepted only as successful answers to outstanding requests."""
 import atexit
+import collections
+import copy
 import hashlib
 import itertools
+import json
 import os
 import shutil
 import sys
@@ -12,7 +15,7 @@ from harness.common import Raw, cq, cq_opt
 
 PID = "C06"
 PARALLEL = 12
-IMPORTS = "From Verif Require Import C06.Model C06.Spec C06.Corr."
+IMPORTS = "From Verif Require Import C06.Model C06.Spec C06.History C06.Corr."
 CASE_TYPE = "C06.Corr.case"
 RUNNER = "C06.Corr.run"
 FINDING_CLASSES = {2: "C06-F2", 3: "C06-F3", 4: "C06-F4"}
@@ -48,7 +51,19 @@ RULE = ("complete products per group with the other groups at their baseline: co
         "both orders x 5 contents x 5 solicited / unsolicited set-ups x {clear, encrypted}; pairs without a bearer one; a "
         "stray bearer one beside a good one of another method; triples; two assertions (clear + encrypted, both encrypted) "
         "of different methods; SOAP / Artifact; other spellings of the option; status / version / shape failures; "
-        "plus seeded random mixtures across groups, deliveries, encryption flags, set-ups and methods. "
+        "HISTORIES (what the same PROCESS handled before the Response is delivered; played in a forked child of the observing "
+        "process, the caller passing the same outstanding dict object throughout): 22 histories = a LogoutResponse through "
+        "parse_logout_request_response over {POST, Redirect, SOAP} with status {Success, Responder/PartialLogout, Success with "
+        "second-level PartialLogout}, one that cannot be decoded, one handled by ANOTHER client of the process, one handled "
+        "before the receiving client is BUILT; ManageNameID / NameIDMapping / AttributeQuery (accepted, failed) / AuthnQuery "
+        "responses; Authz / AssertionID / Artifact responses; earlier authentication Responses (accepted, failed with a status, "
+        "unsolicited and refused, unsolicited and accepted by a client that allows it, wrong version, back channel, encrypted "
+        "with a stray confirmation); a client built afresh; a mixed sequence of 8 - each x all second-level status codes (21 "
+        "table codes + Requester + 2 unknown + absent; top-level code and browser binding in rotation; thorough tier: x 4 "
+        "top-level codes x {POST, Redirect, SOAP}) and x 11 finals for the other clauses (accepted over both bindings, "
+        "unsolicited, unknown id, stray confirmation in clear / encrypted, Success with a second-level code, version, no "
+        "assertion, unsolicited allowed, back channel); "
+        "plus seeded random mixtures across groups, deliveries, encryption flags, set-ups, methods and histories (1-5 events). "
         "non-trivial = distinct abstract input differing from the all-valid baseline")
 TRUSTED = ["source-to-Gallina translator harness/py2coq.py + coq/theories/Base/Py.v (check_subject_confirmation_in_response_to is "
            "re-translated from the source text on every run; c06_source_check_sc_irt proves it equal to the model)",
@@ -63,8 +78,20 @@ TRUSTED = ["source-to-Gallina translator harness/py2coq.py + coq/theories/Base/P
            "the cut harness/c06.py:subject_slice (takes the if statement between the attesting-entity test and the loop over "
            "the confirmations out of AuthnResponse.get_subject, refuses any other shape and a loop that raises "
            "UnsolicitedResponse itself); c06_source_subject_repeat_check proves it equal to the model's method-blind test "
-           "(sc_all_match_m every_method); that nothing in front of it returns early is covered by the correspondence run only"]
-ASSUMPTIONS = ["a confirmation of a method other than bearer carries the same Recipient / NotOnOrAfter as a bearer one and no Address; "
+           "(sc_all_match_m every_method); that nothing in front of it returns early is covered by the correspondence run only",
+           "the cut harness/c06.py:status_slice (StatusResponse.status_ok: every statement in front of `err_cls = "
+           "STATUSCODE2EXCEPTION.get(err_code, StatusError)` is translated - c06_source_status_ok proves that it reads "
+           "self.response.status only and lets exactly the Success URN pass -, the statements behind it must be `msg = f'..'; "
+           "[logger.debug(msg);] raise err_cls(msg)`; refuses a response class that overrides status_ok and a module that writes "
+           "to the table); that verify() calls status_ok is covered by the correspondence run only",
+           "histories: the events are played in a forked child of the observing process (harness/c06.py:observe_after), messages "
+           "and clients being made in the parent; LogoutResponse / ManageNameIDResponse / NameIDMappingResponse are rendered by "
+           "harness/c06.py:status_message and signed through the stand-in; the final observation (observe_final) counts a write "
+           "to the identity cache by THIS delivery as identity (the cache may hold the history's subjects)"]
+ASSUMPTIONS = ["a history is a finite sequence of messages handed to the parse_* functions of clients of the same process (and of "
+               "client constructions); threads, other processes, configuration reloads and direct writes to library objects by "
+               "the application are outside it",
+               "a confirmation of a method other than bearer carries the same Recipient / NotOnOrAfter as a bearer one and no Address; "
                "a holder-of-key KeyInfo names a key (ds:KeyName) - whether the presenter holds that key is not the library's test",
                "signature, times, audience, recipient valid in every case; the message is encoded the way the named binding "
                "prescribes (POST also deflated, which Entity.unravel accepts)",
@@ -262,7 +289,8 @@ SRC2_SPECS = [{"name": "src2_load_special_value", "params": ["_val"]},
               {"name": "src2_config_setattr", "params": ["self", "context", "attr", "val"], "returns_state": ["self"]},
               {"name": "src2_config_getattr", "params": ["self", "attr", "context"]},
               {"name": "src2_subject_repeat_check", "params": ["self", "subject"], "lenient_raise_args": True,
-               "exc_parents": {"UnsolicitedResponse": ["Exception"]}}]
+               "exc_parents": {"UnsolicitedResponse": ["Exception"]}},
+              {"name": "src2_status_ok_head", "params": ["self"]}]
 
 
 def subject_slice():
@@ -299,6 +327,60 @@ def subject_slice():
     f1.lineno, f1.end_lineno = cut.lineno, cut.end_lineno
     return ("saml2/response.py:AuthnResponse.get_subject (the if statement between the attesting-entity test and the loop over "
             "the confirmations, cut out by harness/c06.py:subject_slice)", ast.fix_missing_locations(f1), SRC2_SPECS[4])
+
+
+def status_slice():
+    """StatusResponse.status_ok cut in two (fail-closed: any other shape is Untranslatable):
+      HEAD  every statement in front of `err_cls = STATUSCODE2EXCEPTION.get(err_code, StatusError)` - which value counts
+            as success, which code is looked up, and whatever else may return before the lookup -, turned into
+            def status_ok_head(self): <HEAD>; return err_code       (True: the status test passes; else the code looked up)
+      TAIL  exactly: err_cls = STATUSCODE2EXCEPTION.get(err_code, StatusError) / msg = <f-string> / logger.debug(msg) /
+            raise err_cls(msg): the class comes out of the table (coq/gen/C06Tables.v, regenerated from the live dict) with
+            StatusError as the default, and it is raised.
+    The head may not mention the table or err_cls, the class may define no other status_ok (AuthnResponse & co inherit
+    it: checked on the live classes), and the table must be a dict display that nothing in the module writes to."""
+    import ast
+    from harness import py2coq2
+
+    U = py2coq2.Untranslatable
+    path = os.path.join(env.SRC, "saml2", "response.py")
+    with open(path) as f:
+        tree = ast.parse(f.read())
+    fn = py2coq2.find_function(tree, "StatusResponse.status_ok")
+    body = [b for b in fn.body if not (isinstance(b, ast.Expr) and isinstance(b.value, ast.Constant))]
+    k = next((i for i, b in enumerate(body) if _same(b, "err_cls = STATUSCODE2EXCEPTION.get(err_code, StatusError)")), None)
+    if k is None:
+        raise U("StatusResponse.status_ok: the table lookup `err_cls = STATUSCODE2EXCEPTION.get(err_code, StatusError)` not found")
+    head, tail = body[:k], body[k + 1:]
+    tail = [b for b in tail if not _same(b, "logger.debug(msg)")]
+    if not (len(tail) == 2 and isinstance(tail[0], ast.Assign) and len(tail[0].targets) == 1
+            and isinstance(tail[0].targets[0], ast.Name) and tail[0].targets[0].id == "msg"
+            and isinstance(tail[0].value, (ast.JoinedStr, ast.Constant)) and _same(tail[1], "raise err_cls(msg)")):
+        raise U("StatusResponse.status_ok: the statements behind the table lookup are not `msg = f'...'; raise err_cls(msg)`")
+    for b in head:
+        for n in ast.walk(b):
+            if isinstance(n, ast.Name) and n.id in ("STATUSCODE2EXCEPTION", "err_cls"):
+                raise U("StatusResponse.status_ok: the statements in front of the table lookup mention %s" % n.id)
+    # the other response classes inherit status_ok; nothing in the module writes to the table or to a class
+    for node in ast.walk(tree):
+        if isinstance(node, ast.ClassDef) and node.name != "StatusResponse":
+            if any(isinstance(b, ast.FunctionDef) and b.name == "status_ok" for b in node.body):
+                raise U("class %s defines a status_ok of its own" % node.name)
+        if isinstance(node, (ast.Subscript, ast.Attribute)) and isinstance(node.ctx, (ast.Store, ast.Del)):
+            d = py2coq2._dotted(node.value)
+            if d == "STATUSCODE2EXCEPTION":
+                raise U("the module writes to STATUSCODE2EXCEPTION (line %d)" % node.lineno)
+        if isinstance(node, ast.Call) and isinstance(node.func, ast.Attribute) \
+                and py2coq2._dotted(node.func.value) == "STATUSCODE2EXCEPTION" and node.func.attr != "get":
+            raise U("the module calls STATUSCODE2EXCEPTION.%s (line %d)" % (node.func.attr, node.lineno))
+    f1 = ast.parse("def status_ok_head(self):\n pass").body[0]
+    f1.body = list(head) + [ast.parse("return err_code").body[0]]
+    f1.lineno, f1.end_lineno = fn.lineno, body[k].end_lineno
+    from saml2 import samlp
+
+    spec = dict(SRC2_SPECS[5], globals={"samlp.STATUS_SUCCESS": "(PStr %s)" % cq(samlp.STATUS_SUCCESS)})
+    return ("saml2/response.py:StatusResponse.status_ok (the statements in front of the table lookup, cut out by "
+            "harness/c06.py:status_slice)", ast.fix_missing_locations(f1), spec)
 
 
 def regenerate_source2():
@@ -338,6 +420,13 @@ def regenerate_source2():
     except (py2coq2.Untranslatable, OSError, SyntaxError, AttributeError, IndexError) as e:
         failed.append("subject_slice: %s" % e)
         out.append(py2coq2.poison(SRC2_SPECS[4]["name"], SRC2_SPECS[4], str(e)))
+    names.append(SRC2_SPECS[5]["name"])
+    try:
+        origin, fn, spec = status_slice()
+        out.append(py2coq2.translate_def(fn, spec, origin))
+    except (py2coq2.Untranslatable, OSError, SyntaxError, AttributeError, IndexError) as e:
+        failed.append("status_slice: %s" % e)
+        out.append(py2coq2.poison(SRC2_SPECS[5]["name"], SRC2_SPECS[5], str(e)))
     out.append("(* saml2/client_base.py:Base.__init__, attribute_defaults[\"allow_unsolicited\"] *)\n"
                "Definition src2_allow_unsolicited_default : pyval := %s.\n" % (
                    "PErr" if default is None else "(PBool %s)" % ("true" if default else "false")))
@@ -349,8 +438,9 @@ def regenerate_source2():
 
 def mk(irt="req-1", scs=(("data", "req-1"),), allow=False, out="one", top=SUCCESS, second=None, version="2.0",
        n_assert=1, n_authn=1, subject=True, tag="", delivery=FULL_DELIVERIES[0], sealed=(), scs2=None, sign_a=False,
-       opt=None, how="spconfig"):
-    """allow: shorthand for the two set-ups of the older groups (False: option absent, True: the boolean True);
+       opt=None, how="spconfig", hist=()):
+    """hist: what the process handled before this delivery (list of events, see ev / ev_authn / NEWCLIENT; () = nothing:
+    the long-lived client of the worker process); allow: shorthand for the two set-ups of the older groups (False: option absent, True: the boolean True);
     opt: how the option is written (overrides allow); how: how the configuration object is made; sealed: which assertions (by position) arrive as EncryptedAssertion (missing = in clear); scs: confirmations of
     the first assertion, scs2: of every further one (None = the same); sign_a: the assertions are signed as well."""
     return {"via": delivery[0], "enc": delivery[1], "dest": delivery[2], "irt": irt, "scs": [list(s) for s in scs],
@@ -358,7 +448,8 @@ def mk(irt="req-1", scs=(("data", "req-1"),), allow=False, out="one", top=SUCCES
             "out": out, "top": top, "second": second,
             "version": version, "n_assert": n_assert, "n_authn": n_authn, "subject": subject, "tag": tag,
             "sealed": [bool(b) for b in (list(sealed) + [False] * n_assert)[:n_assert]],
-            "scs2": None if scs2 is None else [list(s) for s in scs2], "sign_a": bool(sign_a)}
+            "scs2": None if scs2 is None else [list(s) for s in scs2], "sign_a": bool(sign_a),
+            "hist": [copy.deepcopy(e) for e in hist]}
 
 
 def status_codes():
@@ -538,6 +629,8 @@ def generate(ctx):
                 cases.append(mk(irt=irt, scs=(("data", sc),), opt=opt, how=how, out="many", tag="config-loader",
                                 delivery=FULL_DELIVERIES[k % 2]))
     cases += method_cases()
+    cases += history_cases(ctx)
+    pool = [e for _, h in histories() for e in h]
     all_opts = OPT_DOCUMENTED * 3 + OPT_YES_WORDS + OPT_NO_WORDS + OPT_OTHER
     for _ in range(3000 if ctx.thorough else 400):
         cases.append(mk(irt=rng.choice(IRT), scs=rng.choice(sc_shapes), allow=rng.random() < 0.4,
@@ -560,6 +653,8 @@ def generate(ctx):
             c["scs"] = [list(with_method(tuple(sc), rng.choice(names))) for sc in c["scs"]]
             if c["scs2"] is not None:
                 c["scs2"] = [list(with_method(tuple(sc), rng.choice(names))) for sc in c["scs2"]]
+        if rng.random() < 0.15:
+            c["hist"] = [copy.deepcopy(rng.choice(pool)) for _ in range(rng.choice([1, 1, 2, 3, 5]))]
     return cases
 
 
@@ -667,6 +762,139 @@ def method_cases():
             add(scs=scs, sealed=sealed, n_authn=0)
             add(scs=scs, sealed=sealed, n_authn=2)
             add(scs=(("data", "req-2", m),), sealed=sealed, top=tops)
+    return cases
+
+
+# ---------------------------------------------------------------------------- histories
+# What the PROCESS handled before the Response is delivered.  An event is
+#   {"kind": k, "via": binding name, "who": "same" | "other", "top", "second", "irt", "garbage"}   a message of another
+#       kind handed to the matching parse_* function (EVENT_PARSERS) of the receiving client ("same") or of another
+#       client of the process ("other": one that allows unsolicited Responses); garbage: a message that cannot be decoded;
+#   {"kind": "authn", "who": ..., "case": <a case made by mk()>}   an earlier authentication Response (its own set-up
+#       is ignored: it goes to the client that "who" names; the caller passes the SAME outstanding dict object every time);
+#   {"kind": "newclient"}   from here on the receiving client is one built NOW (same configuration).
+ST = "urn:oasis:names:tc:SAML:2.0:status:"
+PARTIAL_LOGOUT, RESPONDER = ST + "PartialLogout", ST + "Responder"
+NEWCLIENT = {"kind": "newclient"}
+EVENT_KINDS = {"authn": "MAuthn", "logout": "MLogout", "manage": "MManageNameId", "mapping": "MNameIdMapping",
+               "attrq": "MAttribute", "authnq": "MAuthnQuery", "authz": "MAuthz", "aid": "MAssertionId", "artifact": "MArtifact"}
+EVENT_TAGS = {"logout": "LogoutResponse", "manage": "ManageNameIDResponse", "mapping": "NameIDMappingResponse"}
+EVENT_PARSERS = {
+    "logout": lambda sp, m, b: sp.parse_logout_request_response(m, b),
+    "manage": lambda sp, m, b: sp.parse_manage_name_id_request_response(m, b),
+    "mapping": lambda sp, m, b: sp.parse_name_id_mapping_request_response(m, b),
+    "attrq": lambda sp, m, b: sp.parse_attribute_query_response(m, b),
+    "authnq": lambda sp, m, b: sp.parse_authn_query_response(m, b),
+    "authz": lambda sp, m, b: sp.parse_authz_decision_query_response(m, b),
+    "aid": lambda sp, m, b: sp.parse_assertion_id_request_response(m, b),
+    "artifact": lambda sp, m, b: sp.parse_artifact_resolve_response(m),
+}
+SLO = {"post": world.SP_SLO_POST, "redirect": world.SP_SLO_REDIRECT, "soap": world.SP_SLO_SOAP}
+EVENT_ENC = {"post": "b64", "redirect": "deflate", "soap": "soap", "artifact": "b64", "paos": "soap"}
+
+
+def ev(kind, via="soap", who="same", top=SUCCESS, second=None, irt="lreq-1", garbage=False):
+    return {"kind": kind, "via": via, "who": who, "top": top, "second": second, "irt": irt, "garbage": bool(garbage)}
+
+
+def ev_authn(who="same", **kw):
+    return {"kind": "authn", "who": who, "case": mk(**kw)}
+
+
+def status_message(tag, top, second, irt, dest, body=""):
+    """A StatusResponseType message other than Response (LogoutResponse, ManageNameIDResponse, NameIDMappingResponse),
+    signed by the IdP (local: render.py knows Response only)."""
+    ident = "m-1"
+    xml = '<samlp:%s %s ID="%s"%s Version="2.0" IssueInstant="%s"%s><saml:Issuer>%s</saml:Issuer>%s%s%s</samlp:%s>' % (
+        tag, render.NS_DECL, ident, render.attr("InResponseTo", irt), env.iso(spaccept.NOW), render.attr("Destination", dest),
+        world.IDP_ID, render.signature_template(ident), render.status(top, second), body, tag)
+    return render.sign_xml(xml, "idp", "urn:oasis:names:tc:SAML:2.0:protocol:" + tag, ident)
+
+
+_event_msgs = {}
+
+
+def event_message(e):
+    """(encoded message, binding URI) of an event; rendered once per process (the renderer is harness code)."""
+    key = json.dumps(e, sort_keys=True)
+    hit = _event_msgs.get(key)
+    if hit is not None:
+        return hit
+    if e["kind"] == "authn":
+        c = e["case"]
+        xml = render_case(c)
+        res = (ENCODERS[c["enc"]](xml), BINDINGS[c["via"]])
+    else:
+        if e.get("garbage"):
+            xml = "<samlp:%s this is no XML" % EVENT_TAGS.get(e["kind"], "Response")
+        elif e["kind"] in EVENT_TAGS:
+            xml = status_message(EVENT_TAGS[e["kind"]], e["top"], e["second"], e["irt"],
+                                 SLO.get(e["via"]) if e["kind"] == "logout" else None,
+                                 render.name_id("mapped-1") if e["kind"] == "mapping" else "")
+        else:   # the kinds whose message is a Response element (with an assertion that has no AuthnStatement)
+            xml = render_case(mk(top=e["top"], second=e["second"], irt=e["irt"], n_authn=0,
+                                 scs=(("data", e["irt"]),), delivery=("soap", "soap", "absent")))
+        res = (ENCODERS[EVENT_ENC[e["via"]]](xml), BINDINGS[e["via"]])
+    _event_msgs[key] = res
+    return res
+
+
+def histories():
+    """(name, events): the histories the group "history" runs in front of every final delivery."""
+    lo = lambda **k: ev("logout", **k)
+    soap = ("soap", "soap", "post")
+    return [
+        ("logout-post", [lo(via="post")]),
+        ("logout-redirect", [lo(via="redirect")]),
+        ("logout-soap", [lo(via="soap")]),
+        ("logout-partial", [lo(via="post", top=RESPONDER, second=PARTIAL_LOGOUT)]),       # raises StatusPartialLogout there
+        ("logout-success-partial", [lo(via="redirect", second=PARTIAL_LOGOUT)]),
+        ("logout-garbage", [lo(via="post", garbage=True)]),                               # the object is made, nothing parsed
+        ("logout-other-client", [lo(via="redirect", who="other")]),
+        ("logout-then-new-client", [lo(via="post"), NEWCLIENT]),
+        ("manage", [ev("manage")]),
+        ("mapping", [ev("mapping")]),
+        ("attrq", [ev("attrq")]),
+        ("attrq-failed", [ev("attrq", top=RESPONDER, second=PARTIAL_LOGOUT)]),
+        ("authnq", [ev("authnq")]),
+        ("authz-aid-artifact", [ev("authz"), ev("aid"), ev("artifact"), ev("attrq", via="post")]),
+        ("authn-accepted", [ev_authn()]),
+        ("authn-failed", [ev_authn(top=RESPONDER, second=PARTIAL_LOGOUT)]),
+        ("authn-unsolicited", [ev_authn(irt=None, scs=(("data", None),))]),
+        ("authn-allowed-elsewhere", [ev_authn(who="other", irt=None, scs=(("data", None),))]),
+        ("authn-version", [ev_authn(version="2.1"), ev_authn(delivery=soap)]),
+        ("authn-sealed", [ev_authn(sealed=(True,), scs=(("data", "req-2"),)), ev_authn(sealed=(True,))]),
+        ("new-client", [NEWCLIENT]),
+        ("mixed", [ev_authn(), lo(via="redirect"), ev("attrq"), ev_authn(top=RESPONDER, second=ST + "AuthnFailed"),
+                   lo(via="soap", top=RESPONDER, second=PARTIAL_LOGOUT), NEWCLIENT, ev("manage"), ev_authn(irt="unknown-9")]),
+    ]
+
+
+def history_cases(ctx):
+    """Group "history": every history x every second-level status code (top-level code and browser binding in
+    rotation; the thorough tier: x 4 top-level codes x {POST, Redirect, SOAP}) and x the finals that exercise the other
+    clauses (accepted over both bindings, unsolicited, unknown id, stray confirmation in clear / encrypted, success with a
+    second-level code, version, no assertion, unsolicited allowed, back channel)."""
+    cases = []
+    post, redirect = FULL_DELIVERIES
+    soap = ("soap", "soap", "post")
+    tops = [RESPONDER, ST + "Requester", ST + "VersionMismatch"]
+    codes = status_codes()
+    for i, (name, h) in enumerate(histories()):
+        tag = "history:" + name
+        if ctx.thorough:
+            for dl in (post, redirect, soap):
+                for top in tops + [SUCCESS]:
+                    for second in codes:
+                        cases.append(mk(top=top, second=second, hist=h, tag=tag, delivery=dl))
+        else:
+            for j, second in enumerate(codes):
+                cases.append(mk(top=tops[(i + j) % 3], second=second, hist=h, tag=tag, delivery=FULL_DELIVERIES[(i + j // 3) % 2]))
+        for kw in (dict(), dict(delivery=redirect), dict(irt=None, scs=(("data", None),)), dict(irt="unknown-9", scs=(("data", "unknown-9"),)),
+                   dict(scs=(("data", "req-2"),), out="many"), dict(scs=(("data", "req-2"),), out="many", sealed=(True,)),
+                   dict(second=PARTIAL_LOGOUT), dict(version="2.1"), dict(n_assert=0),
+                   dict(irt=None, scs=(("data", None),), allow=True), dict(delivery=soap, out="none")):
+            cases.append(mk(hist=h, tag=tag, **kw))
     return cases
 
 
@@ -805,6 +1033,40 @@ def opt_over(opt):
     return {"sp_allow_unsolicited": None if opt[0] == "none" else opt[1]}
 
 
+def build_client(opt, how):
+    """A NEW Saml2Client whose configuration writes allow_unsolicited as [opt] says, the configuration object being made
+    the way [how] says."""
+    env.install_standin()
+    spaccept.CLOCK.install()
+    from saml2 import config as cfg
+    from saml2.client import Saml2Client
+
+    if how == "spconfig":
+        return world.make_sp(**copy.deepcopy(opt_over(opt)))
+    d = world.sp_config(**opt_over(opt))
+    if how == "config":
+        return Saml2Client(config=cfg.Config().load(d))
+    if how == "idpconfig":
+        return Saml2Client(config=cfg.IdPConfig().load(d))
+    if how == "factory-dict":
+        return Saml2Client(config=cfg.config_factory("sp", d))
+    if how == "client-file":
+        if not _conf_dir:
+            _conf_dir.append(tempfile.mkdtemp(prefix="verif-c06-conf-%d-" % os.getpid()))
+            atexit.register(shutil.rmtree, _conf_dir[0], True)
+        name = "verif_c06_conf_%s" % hashlib.sha1(repr(opt).encode()).hexdigest()[:12]
+        path = os.path.join(_conf_dir[0], name + ".py")
+        with open(path, "w") as f:
+            f.write("CONFIG = %r\n" % (d,))
+        try:
+            return Saml2Client(config_file=path)
+        finally:
+            sys.modules.pop(name, None)
+            while _conf_dir[0] in sys.path:
+                sys.path.remove(_conf_dir[0])
+    raise ValueError(how)
+
+
 def get_client(opt, how):
     """Local variant of spaccept.get_sp: a Saml2Client whose configuration writes allow_unsolicited as [opt] says, the
     configuration object being made the way [how] says; one long-lived client per set-up and process, identity cache
@@ -816,37 +1078,176 @@ def get_client(opt, how):
     key = (how, repr(opt))
     sp = _clients.get(key)
     if sp is None:
-        from saml2 import config as cfg
-        from saml2.client import Saml2Client
-
-        d = world.sp_config(**opt_over(opt))
-        if how == "config":
-            sp = Saml2Client(config=cfg.Config().load(d))
-        elif how == "idpconfig":
-            sp = Saml2Client(config=cfg.IdPConfig().load(d))
-        elif how == "factory-dict":
-            sp = Saml2Client(config=cfg.config_factory("sp", d))
-        elif how == "client-file":
-            if not _conf_dir:
-                _conf_dir.append(tempfile.mkdtemp(prefix="verif-c06-conf-%d-" % os.getpid()))
-                atexit.register(shutil.rmtree, _conf_dir[0], True)
-            name = "verif_c06_conf_%s" % hashlib.sha1(repr(opt).encode()).hexdigest()[:12]
-            path = os.path.join(_conf_dir[0], name + ".py")
-            with open(path, "w") as f:
-                f.write("CONFIG = %r\n" % (d,))
-            try:
-                sp = Saml2Client(config_file=path)
-            finally:
-                sys.modules.pop(name, None)
-                while _conf_dir[0] in sys.path:
-                    sys.path.remove(_conf_dir[0])
-        else:
-            raise ValueError(how)
-        _clients[key] = sp
+        sp = _clients[key] = build_client(opt, how)
     from saml2.population import Population
 
     sp.users = Population()
     return sp
+
+
+# ---- sequences: the history is played, then the Response delivered, in a forked child of the observing process, so
+# that nothing the history leaves behind in classes / modules / clients reaches the cases WITHOUT that history: a replay
+# reproduces.  The child is kept for the deliveries of the same history and set-up that follow (a fork per delivery costs
+# more than the delivery on a loaded machine), as the long-lived clients of the process are kept for the plain cases.
+def observe_final(sp, encoded, binding, outstanding):
+    """Local variant of spaccept.observe for a client whose identity cache the history may have filled: "cached" = THIS
+    delivery wrote to the cache (a call of Population.add_information_about_person, or a subject that was not there)."""
+    users = sp.users
+
+    def subjects():
+        try:
+            return {str(x) for x in sp.users.subjects()}
+        except Exception:  # noqa
+            return set()
+
+    before, writes = subjects(), []
+    orig = users.add_information_about_person
+    users.add_information_about_person = lambda info: (writes.append(1), orig(info))[1]
+    obs = {"identity": False, "exc": None, "exc_mro": None, "came_from": None}
+    r = None
+    try:
+        r = sp.parse_authn_request_response(encoded, binding, outstanding)
+    except Exception as e:  # noqa
+        obs["exc"] = type(e).__name__
+        obs["exc_mro"] = [c.__name__ for c in type(e).__mro__ if c.__name__ not in ("object", "BaseException")]
+    finally:
+        del users.add_information_about_person
+    if r is not None:
+        nid = getattr(r, "name_id", None)
+        obs["came_from"] = getattr(r, "came_from", None)
+        try:
+            si = r.session_info()
+        except Exception:  # noqa
+            si = None
+        obs["identity"] = bool((nid is not None and getattr(nid, "text", None) is not None) or getattr(r, "ava", None)
+                               or getattr(r, "assertion", None) is not None or si is not None)
+    if writes or sp.users is not users or subjects() - before:
+        obs["identity"] = True
+    return obs
+
+
+def play_history(hist, sp, other, msgs, opt, how):
+    """Runs in the child: the events of the history in order.  Returns (receiving client, the outstanding dicts the
+    caller handed over on the way, what became of each event)."""
+    dicts = {}
+
+    def outstanding(name):
+        if OUTS[name] is None:
+            return None
+        if name not in dicts:
+            dicts[name] = dict(OUTS[name])    # the caller's long-lived dict: the same object for the whole sequence
+        return dicts[name]
+
+    steps = []
+    for e, m in zip(hist, msgs):
+        if e["kind"] == "newclient":
+            sp = build_client(opt, how)
+            steps.append("new")
+            continue
+        who = sp if e.get("who", "same") == "same" else other
+        try:
+            if e["kind"] == "authn":
+                r = who.parse_authn_request_response(m[0], m[1], outstanding(e["case"]["out"]))
+            else:
+                r = EVENT_PARSERS[e["kind"]](who, m[0], m[1])
+            steps.append("handled" if r else "nothing")
+        except Exception as ex:  # noqa
+            steps.append(type(ex).__name__)
+    return sp, dicts, steps
+
+
+def serve(rfd, wfd, hist, sp, other, msgs, opt, how):
+    """The child: plays the history once, then answers deliveries (one JSON line each) until the pipe is closed."""
+    code = 1
+    try:
+        sp, dicts, steps = play_history(hist, sp, other, msgs, opt, how)
+        with os.fdopen(rfd, "r") as rf, os.fdopen(wfd, "w") as wf:
+            for line in rf:
+                req = json.loads(line)
+                try:
+                    out = OUTS[req["out"]]
+                    if out is not None:
+                        out = dicts[req["out"]] if req["out"] in dicts else dict(out)
+                    o = observe_final(sp, req["encoded"], req["binding"], out)
+                except BaseException as ex:  # noqa
+                    o = {"identity": False, "came_from": None, "exc": "harness:" + type(ex).__name__, "exc_mro": [],
+                         "detail": repr(ex)[:200]}
+                o["steps"] = steps
+                wf.write(json.dumps(o) + "\n")
+                wf.flush()
+        code = 0
+    except BaseException:  # noqa
+        pass
+    finally:
+        os._exit(code)
+
+
+_sessions = collections.OrderedDict()     # (history, set-up) -> [pid, write end, read end]; per observing process
+MAX_SESSIONS = 3
+
+
+def close_session(key):
+    pid, w, r = _sessions.pop(key)
+    for f in (w, r):
+        try:
+            f.close()
+        except Exception:  # noqa
+            pass
+    try:
+        os.waitpid(pid, 0)
+    except Exception:  # noqa
+        pass
+
+
+def observe_after(case, sp, opt, how):
+    """The verdict on [case] after its history: asked of a forked child of this process that has played the history
+    (one child per history and set-up, kept for the deliveries that follow it, as the long-lived clients are)."""
+    hist = case["hist"]
+    key = json.dumps([hist, opt, how], sort_keys=True)
+    encoded = ENCODERS[case["enc"]](render_case(case))
+    for attempt in (0, 1):
+        sess = _sessions.get(key)
+        if sess is None:
+            # what the harness itself has to make (messages, clients) is made here, in the parent, and kept
+            msgs = [None if e["kind"] == "newclient" else event_message(e) for e in hist]
+            other = None
+            if any(e.get("who") == "other" for e in hist):
+                other = get_client(ABSENT if opt == B(True) else B(True), "spconfig")
+            while len(_sessions) >= MAX_SESSIONS:
+                close_session(next(iter(_sessions)))
+            req_r, req_w = os.pipe()
+            res_r, res_w = os.pipe()
+            sys.stdout.flush()
+            sys.stderr.flush()
+            pid = os.fork()
+            if pid == 0:
+                try:
+                    os.close(req_w)
+                    os.close(res_r)
+                    for _pid, w, r in _sessions.values():      # the ends of the other sessions' pipes
+                        for f in (w, r):
+                            try:
+                                os.close(f.fileno())
+                            except Exception:  # noqa
+                                pass
+                except BaseException:  # noqa
+                    os._exit(1)
+                serve(req_r, res_w, hist, sp, other, msgs, opt, how)
+            os.close(req_r)
+            os.close(res_w)
+            sess = _sessions[key] = [pid, os.fdopen(req_w, "w"), os.fdopen(res_r, "r")]
+        _sessions.move_to_end(key)
+        line = ""
+        try:
+            sess[1].write(json.dumps({"encoded": encoded, "binding": BINDINGS[case["via"]], "out": case["out"]}) + "\n")
+            sess[1].flush()
+            line = sess[2].readline()
+        except Exception:  # noqa
+            line = ""
+        if line:
+            return json.loads(line)
+        close_session(key)      # the child is gone: once more with a new one, then give up
+    return {"identity": False, "came_from": None, "exc": "harness:child-died", "exc_mro": [], "steps": []}
 
 
 def observe(case):
@@ -859,14 +1260,20 @@ def observe(case):
             _refused[key] = "setup:" + type(e).__name__
     if key in _refused:    # no receiver, hence no identity whatever is delivered
         return {"identity": False, "came_from": None, "exc": _refused[key], "status_err": None}
-    xml = render_case(case)
-    out = OUTS[case["out"]]
-    o = spaccept.observe(sp, xml, BINDINGS[case["via"]], None if out is None else dict(out),
-                         encoded=ENCODERS[case["enc"]](xml))
+    if case.get("hist"):
+        o = observe_after(case, sp, opt, how)
+    else:
+        xml = render_case(case)
+        out = OUTS[case["out"]]
+        o = spaccept.observe(sp, xml, BINDINGS[case["via"]], None if out is None else dict(out),
+                             encoded=ENCODERS[case["enc"]](xml))
     status_err = None
     if o["exc"] and "StatusError" in (o.get("exc_mro") or []):
         status_err = o["exc"]
-    return {"identity": o["identity"], "came_from": o["came_from"], "exc": o["exc"], "status_err": status_err}
+    res = {"identity": o["identity"], "came_from": o["came_from"], "exc": o["exc"], "status_err": status_err}
+    if case.get("hist"):
+        res["steps"] = o.get("steps")      # what became of each event of the history (not part of the Coq case)
+    return res
 
 
 def coq_setup(case):
@@ -874,6 +1281,23 @@ def coq_setup(case):
     o = {"absent": lambda: "OAbsent", "none": lambda: "ONone", "bool": lambda: "(OBool %s)" % cq(bool(opt[1])),
          "str": lambda: "(OStr %s)" % cq(opt[1]), "int": lambda: "(OInt %d%%nat)" % opt[1]}[opt[0]]()
     return "{| opt := %s; how := %s |}" % (o, COQ_LOADER[how])
+
+
+def coq_history(hist):
+    out = []
+    for e in hist:
+        if e["kind"] == "newclient":
+            out.append("C06.History.NewClient")
+            continue
+        if e["kind"] == "authn":
+            c = e["case"]
+            via, irt, st = c["via"], c["irt"], (c["top"], c["second"])
+        else:
+            via, irt, st = e["via"], e["irt"], None if e.get("garbage") else (e["top"], e["second"])
+        out.append("C06.History.Msg C06.History.%s %s %s %s %s" % (
+            EVENT_KINDS[e["kind"]], COQ_BINDING[via], cq(e.get("who", "same") == "same"), cq_opt(irt),
+            "None" if st is None else "(Some (%s, %s))" % (cq(st[0]), cq_opt(st[1]))))
+    return "[" + "; ".join(out) + "]"
 
 
 def coq_case(case, obs):
@@ -893,8 +1317,8 @@ def coq_case(case, obs):
     mss = [[METHODS[sc_method(sc)][2] for sc in case_scs(case, k)] if case["subject"] else [] for k in range(case["n_assert"])]
     if all(m == "Bearer" for ms in mss for m in ms):
         mss = []          # bearer throughout: the delivery of the older layers
-    return "C06.Corr.mk %s %s %s %s %s %s %s (%d%%nat, %d%%nat) %s %s %s %s" % (
-        COQ_BINDING[case["via"]], COQ_DEST[case["dest"]], cq([bool(b) for b in sealed]),
+    return "C06.Corr.mk %s %s %s %s %s %s %s %s (%d%%nat, %d%%nat) %s %s %s %s" % (
+        coq_history(case.get("hist") or []), COQ_BINDING[case["via"]], COQ_DEST[case["dest"]], cq([bool(b) for b in sealed]),
         "[" + "; ".join("[" + "; ".join(ms) + "]" for ms in mss) + "]", coq_setup(case), cq([(k, v2) for k, v2 in (OUTS[case["out"]] or [])]), cq_opt(case["irt"]), int(maj), int(mi),
         cq(case["top"]), cq_opt(case["second"]), "[" + "; ".join(one(k) for k in range(case["n_assert"])) + "]", v)
 
@@ -918,6 +1342,14 @@ def histogram(cases, observed):
         ok = "%s/%s" % (":".join(repr(x) if isinstance(x, str) and opt[0] == "str" else str(x) for x in opt), how)
         h.setdefault("by_setup", {})
         h["by_setup"][ok] = h["by_setup"].get(ok, 0) + 1
+        if c.get("hist"):
+            hk = "+".join(e["kind"] + ("" if e.get("who", "same") == "same" else "@other") for e in c["hist"])
+            h.setdefault("by_history", {})
+            h["by_history"][hk] = h["by_history"].get(hk, 0) + 1
+            for e, st in zip(c["hist"], o.get("steps") or []):
+                sk = "%s: %s" % (e["kind"], st)
+                h.setdefault("history_steps", {})
+                h["history_steps"][sk] = h["history_steps"].get(sk, 0) + 1
         if o["identity"]:
             h["identity"] += 1
         elif o["status_err"]:
